@@ -107,9 +107,25 @@ def bind(chk: Check, tier: str, seed: int):
     # ONE decoder gets every rendering of every message, in an order that changes from message to message: whole messages
     # before frames, frames before whole messages, binary between text (a bridge that reads several gateways)
     mixed = NMEA2000Decoder()
-    mx = hist[:: max(1, len(hist) // 60)]
+    multi_pgns = {p for p in {x["pgn"] for x in db["defs"]} if sum(1 for x in db["defs"] if x["pgn"] == p) > 1}
+    mx = hist[:: max(1, len(hist) // 60)] + [x for x in zip(picked, emitted) if x[0][0]["pgn"] in multi_pgns][:: (4 if tier != "thorough" else 1)]
     for j, ((m, d, _), em) in enumerate(mx):
         obs = {}
+        # ... after a payload of the same PGN number whose first bytes name no manufacturer any definition is for (returned as
+        # the PGN's fallback definition, or not at all - and reported as unsupported once)
+        if len(m["payload"]) >= 3:
+            stranger = bytes([0x00, 0x00]) + bytes(m["payload"][2:])
+            try:
+                line = "2020-01-01-00:00:00.000,%d,%d,%d,%d,%d,%s" % (m["prio"], m["pgn"], m["src"], m["dst"], len(stranger),
+                                                                      ",".join("%02x" % b for b in stranger))
+                if j % 2:
+                    mixed.decode_basic_string(line, already_combined=True)
+                elif len(stranger) <= 8:
+                    mixed.decode_basic_string(line)
+                else:
+                    mixed.decode_actisense_string("A000001.000 %05X %05X %s" % ((m["src"] << 12) | (m["dst"] << 4) | m["prio"], m["pgn"], stranger.hex().upper()))
+            except Exception:              # noqa: BLE001
+                pass
         order = FORMATS[j % len(FORMATS):] + FORMATS[:j % len(FORMATS)]
         if j % 2:
             order = order[::-1]
